@@ -118,6 +118,17 @@ func Evolve(t *rapid.T, v1 *StructSpec, o GenOptions) (*StructSpec, []string) {
 	if nnew == 0 && len(added) == 0 {
 		nnew = 1
 	}
+	// an embedded block plus an outer field that overrides one of its columns, both new in v2
+	if !o.NoEmbedded && rapid.IntRange(0, 3).Draw(t, "v2.shadowblock") == 0 {
+		budget := 3
+		g := genGroup(t, o, "v2.shadowblock.g", &budget, 1, false)
+		g.Prefix = ""
+		v2.Fields = append(v2.Fields, g)
+		added = append(added, "embedded struct "+g.Name)
+		if shadowIn(t, v2, o, len(v2.Fields)-1, "v2.shadowblock") {
+			added = append(added, "overriding field for a column of "+g.Name)
+		}
+	}
 	for i := 0; i < nnew; i++ {
 		label := fmt.Sprintf("v2.f%d", i)
 		if !o.NoEmbedded && rapid.IntRange(0, 4).Draw(t, label+".isgroup") == 0 {
